@@ -114,6 +114,10 @@ def make_cases(ctx, first):
                     bl = [b for r0 in REPOS for b in w.blobs[r0]]
                     while len(w.steps) < w.freeze_at + extra_n:
                         w.run(len(w.steps) + 1)
+                        if rng.random() < 0.25:
+                            # a collection of the memory store over the directory: what the directory holds stays listed and served
+                            w.add(gcgen.gc_step(rng.choice(REPOS)))
+                            w.probe()
                         if bl and rng.random() < 0.3:
                             # delete (twice), push again, delete again: blobs that exist as files of the backing directory
                             repo = rng.choice(REPOS)
